@@ -1,3 +1,101 @@
-import UscxmlVerif.Model.Large
+import UscxmlVerif.Model.Serial
+/-!
+# C14 — a serialized state resumes to identical behaviour
+
+`Model.Serial.snapshot` / `restore` model what `serialize()` keeps and what `deserialize()` rebuilds
+in a fresh interpreter. The theorem: at a point where a snapshot may be taken, nothing the
+engines read is lost — the restored engine state *is* the original one, except for the observer's
+log (which the engines only write). The correspondence suite `resume` runs original and restored
+interpreter side by side on the same continuation; `Snapshotable` (sortedness of the sets, the
+post-fix view being the rebuilt one) is what the engines maintain - checked there, not proved.
+-/
 namespace UscxmlVerif.Properties.C14
+open UscxmlVerif UscxmlVerif.Model UscxmlVerif.Model.Large UscxmlVerif.Model.Serial
+
+theorem ins_sorted_lt (a : Nat) : ∀ (l : List Nat), sorted l = true → (∀ x ∈ l, x < a) → ins a l = l ++ [a]
+  | [], _, _ => rfl
+  | b :: bs, hs, hlt => by
+    have hb : b < a := hlt b (by simp)
+    have h1 : ¬ a < b := by omega
+    have h2 : (a == b) = false := by simp; omega
+    have hs' : sorted bs = true := by
+      cases bs with
+      | nil => rfl
+      | cons c cs => simp only [sorted, Bool.and_eq_true] at hs; exact hs.2
+    simp only [ins, h1, if_false, h2, Bool.false_eq_true]
+    rw [ins_sorted_lt a bs hs' (fun x hx => hlt x (by simp [hx]))]
+    rfl
+
+theorem sorted_append_lt : ∀ (l : List Nat) (a : Nat), sorted l = true → (∀ x ∈ l, x < a) → sorted (l ++ [a]) = true
+  | [], _, _, _ => rfl
+  | [b], a, _, h => by simp [sorted, h b (by simp)]
+  | b :: c :: rest, a, hs, h => by
+    simp only [sorted, Bool.and_eq_true, decide_eq_true_eq] at hs
+    have := sorted_append_lt (c :: rest) a hs.2 (fun x hx => h x (by simp [hx]))
+    simp only [List.cons_append, sorted, Bool.and_eq_true, decide_eq_true_eq]
+    exact ⟨hs.1, this⟩
+
+/-- inserting the elements of a strictly ascending list one by one rebuilds the list -/
+theorem insAll_sorted : ∀ (l acc : List Nat), sorted (acc ++ l) = true → insAll l acc = acc ++ l := by
+  intro l
+  induction l with
+  | nil => intro acc _; simp [insAll]
+  | cons a rest ih =>
+    intro acc hs
+    simp only [insAll, List.foldl_cons]
+    have hacc : sorted acc = true ∧ ∀ x ∈ acc, x < a := by
+      clear ih
+      induction acc with
+      | nil => exact ⟨rfl, fun x hx => by cases hx⟩
+      | cons b bs ihb =>
+        cases bs with
+        | nil =>
+          simp only [List.cons_append, List.nil_append, sorted, Bool.and_eq_true, decide_eq_true_eq] at hs
+          exact ⟨rfl, fun x hx => by simp at hx; omega⟩
+        | cons c cs =>
+          simp only [List.cons_append, sorted, Bool.and_eq_true, decide_eq_true_eq] at hs
+          have := ihb (by simpa using hs.2)
+          refine ⟨by simp only [sorted, Bool.and_eq_true, decide_eq_true_eq]; exact ⟨hs.1, this.1⟩, ?_⟩
+          intro x hx
+          simp only [List.mem_cons] at hx
+          rcases hx with hx | hx | hx
+          · have := this.2 c (by simp); omega
+          · exact this.2 x (by simp [hx])
+          · exact this.2 x (by simp [hx])
+    rw [ins_sorted_lt a acc hacc.1 hacc.2]
+    have : insAll rest (acc ++ [a]) = (acc ++ [a]) ++ rest := ih (acc ++ [a]) (by simpa using hs)
+    simpa [insAll] using this
+
+theorem insAll_nil_sorted (l : List Nat) (h : sorted l = true) : insAll l [] = l := by
+  simpa using insAll_sorted l [] (by simpa using h)
+
+/-- **nothing the engines read is lost in a snapshot**: restoring the snapshot of a snapshotable
+state into a fresh interpreter for the same document gives the original engine state, except for the
+observer's log (starts anew) and the post-fix view of the configuration, which is rebuilt — and agrees
+with the original on every state that has transitions, the only ones the selection loop looks at -/
+theorem restore_snapshot (c : Chart) (e : EState) (h : Snapshotable c e) :
+    restore c (snapshot e) = { e with configPF := rebuildPF c e.config, x := { e.x with obs := [] } } ∧
+    (restore c (snapshot e)).configPF.filter (hasTrans c) = e.configPF.filter (hasTrans c) := by
+  obtain ⟨h1, h2, h3, h4, h5, h6, h7⟩ := h
+  have key : restore c (snapshot e) = { e with configPF := rebuildPF c e.config, x := { e.x with obs := [] } } := by
+    simp only [restore, snapshot, insAll_nil_sorted _ h1, insAll_nil_sorted _ h2, insAll_nil_sorted _ h3]
+    cases e with
+    | mk config configPF history invocations pristine spontaneous stable tlf finished cancelled mc x =>
+      cases x with
+      | mk iq eq obs vars =>
+        simp only at h5 h6 h7
+        subst h5 h6 h7
+        rfl
+  exact ⟨key, by rw [key]; exact h4.symm⟩
+
+/-- a second snapshot of the restored state is the first one: snapshots are stable under resume -/
+theorem snapshot_restore_idempotent (c : Chart) (e : EState) (h : Snapshotable c e) :
+    snapshot (restore c (snapshot e)) = snapshot e := by
+  rw [(restore_snapshot c e h).1]
+  rfl
+
+/-! non-vacuity -/
+example : Snapshotable default { config := [0, 2, 5], configPF := rebuildPF default [0, 2, 5], history := [3], pristine := false, stable := true } :=
+  ⟨by decide, by decide, by decide, rfl, rfl, rfl, rfl⟩
+
 end UscxmlVerif.Properties.C14
